@@ -104,6 +104,10 @@ def random_op(st, rng: random.Random, *, D, typed=False, kinds=(0,), xids=(0,), 
                 pos = POS_NONE  # int positions inside the same parent are ambiguous: not driven
             if pos["t"] == "node" and pos["v"] == x:
                 pos = POS_NONE
+            if rng.random() < 0.04:   # invalid: before=<node that is not a child of the target>
+                others = [i for i in live if i != x and i not in _kids(st, p)]
+                if others:
+                    pos = {"t": "node", "v": rng.choice(others)}
             return {"name": "move_to", "x": x, "p": p, "pos": pos}
         if f == "remove" and live:
             v = rng.random()
@@ -143,5 +147,6 @@ def random_op(st, rng: random.Random, *, D, typed=False, kinds=(0,), xids=(0,), 
                     "replace": rng.random() < 0.5}
         if f == "filter" and live and rng.random() < 0.3:
             return {"name": "filter", "p": rng.choice(parents),
-                    "v": [rng.choice(["T", "T", "F"]) for _ in range(st["n"])]}
+                    "v": [rng.choice(["T", "T", "T", "F", "F", "skip", "skipKeep", "select", "stop"]) for _ in range(st["n"])],
+                    "raise": rng.random() < 0.5}
     return {"name": "clear"}
